@@ -53,3 +53,9 @@ Fixpoint mismatches_from {A} (f : A -> bool) (i : Z) (l : list A) : list Z :=
   | x :: r => if f x then mismatches_from f (i + 1) r else i :: mismatches_from f (i + 1) r
   end.
 Definition mismatches {A} (f : A -> bool) (l : list A) : list Z := mismatches_from f 0 l.
+
+(* Big integer literals: Coq's parser is very slow on literals of thousands of digits, so the
+   harness writes integers wider than 192 bits as 64-bit limbs, most significant first. *)
+Definition zl (neg : bool) (limbs : list Z) : Z :=
+  let m := fold_left (fun acc l => acc * 18446744073709551616 + l) limbs 0 in
+  if neg then - m else m.
